@@ -25,6 +25,7 @@ import (
 	"github.com/olive-io/bpmn/v2/pkg/errors"
 	"github.com/olive-io/bpmn/v2/pkg/id"
 	"github.com/olive-io/bpmn/v2/pkg/tracing"
+	"github.com/olive-io/bpmn/v2/pkg/verifhook"
 )
 
 type InclusiveNoEffectiveSequenceFlows struct {
@@ -173,6 +174,7 @@ func (gw *inclusiveGateway) run(ctx context.Context, sender tracing.ISenderHandl
 				}
 			}
 		case <-activity:
+			verifhook.Point("gw.inclusive.activity")
 			if !gw.synchronized && gw.activated != nil {
 				gw.awaiting = gw.flowTracker.activeFlowsInCohort(gw.activated.flow.Id())
 				gw.trySync()
@@ -220,6 +222,7 @@ func (gw *inclusiveGateway) NextAction(ctx context.Context, flow Flow) chan IAct
 	})
 
 	response := make(chan IAction)
+	verifhook.Point("gw.inclusive.next")
 	gw.mch <- nextActionMessage{response: response, flow: flow}
 	return response
 }
@@ -312,6 +315,7 @@ func (tracker *flowTracker) run() {
 func (tracker *flowTracker) handleTrace(locked bool, trace tracing.ITrace, notify bool, reachedNode bool) (bool, bool, bool) {
 	trace = tracing.Unwrap(trace)
 	if !locked {
+		verifhook.Point("gw.inclusive.tracker")
 		// Lock tracker records until messages are drained
 		tracker.lock.Lock()
 		locked = true
